@@ -31,9 +31,10 @@ def dict_results_json(d):
 
 
 class Replica:
-    def __init__(self, name, frontend):
+    def __init__(self, name, frontend, which="main"):
         self.name = name
         self.frontend = frontend
+        self.which = which              # "main" | "alt": which config document this replica runs
         self.stream = None
         self.config = None
         self.closer = None
@@ -42,10 +43,14 @@ class Replica:
 
 
 def build_replicas(scn, shared_config=None):
-    """Create stream + Config objects and one scheduler task per front end."""
+    """Create stream + Config objects and one scheduler task per front end.
+
+    With scn["alt_config"], the front ends listed in scn["alt_on"] get a second
+    task that runs the alternative config on the *same stream object* (state
+    kept on a stream between/within runs is then observable)."""
     tbl, cfg = scn["table"], scn["config"]
     reps = []
-    for i, fe in enumerate(scn["frontends"]):
+    for fe in scn["frontends"]:
         r = Replica(fe, fe)
         try:
             if fe == "qcconfig":
@@ -69,6 +74,19 @@ def build_replicas(scn, shared_config=None):
         except Exception as e:  # noqa: BLE001
             r.setup_error = (e, exc_signature(e))
         reps.append(r)
+        if scn.get("alt_config") and fe in scn.get("alt_on", []) and fe != "qcconfig" and r.setup_error is None:
+            a = Replica(f"{fe}+alt", fe, "alt")
+            try:
+                a.stream = r.stream
+                a.config = pl.build_config(scn["alt_config"])
+
+                def afactory(a=a):
+                    return a.stream.run(a.config)
+
+                a.task = Task(a.name, afactory)
+            except Exception as e:  # noqa: BLE001
+                a.setup_error = (e, exc_signature(e))
+            reps.append(a)
     return reps
 
 
@@ -108,6 +126,19 @@ def match_yields(yields, expected, arrays, times):
 
     Returns (pairs [(yield_index, expected_index)], unmatched_yields, unmatched_expected).
     """
+    # all four streams yield in configuration order: take that attribution when it is
+    # consistent (same count, same stream id, same test label wherever a result exists)
+    if len(yields) == len(expected):
+        ok = True
+        for (item, _), e in zip(yields, expected):
+            ent = e["entry"]
+            if item.stream_id != ent["sid"] or (
+                item.results and (item.results[0].package, item.results[0].test) != (ent["module"], ent["test"])
+            ):
+                ok = False
+                break
+        if ok:
+            return [(i, i) for i in range(len(yields))], [], []
     masks = [pl.model_rows(e_ctx_window(e), times) for e in expected]
     free = list(range(len(expected)))
     pairs, lonely = [], []
@@ -151,9 +182,10 @@ def e_ctx_window(e):
     return e.get("window")
 
 
-def annotate_expected(scn, arrays):
+def annotate_expected(scn, arrays, cfg=None):
     """expected calls + model window + the reference (direct) execution."""
-    tbl, cfg = scn["table"], scn["config"]
+    tbl = scn["table"]
+    cfg = cfg or scn["config"]
     exp = pl.expected_calls(cfg, set(tbl["cols"]))
     times = tbl["times"]
     for e in exp:
@@ -166,3 +198,7 @@ def annotate_expected(scn, arrays):
         e["direct_err"] = err
         e["fails"] = res is None
     return exp
+
+
+def dict_results_json_full(d):
+    return {sid: dict_results_json(d[sid]) for sid in d}
